@@ -15,6 +15,7 @@
 #define CELMA_COMMON_SINGLETON_HPP
 
 
+#include <atomic>
 #include <memory>
 #include <mutex>
 #include <utility>
@@ -91,12 +92,16 @@ private:
    /// The singleton object, created when instance() is called for the first
    /// time.
    static std::unique_ptr< T>  mpObject;
+   /// Pointer to the singleton object for the check outside of the mutex:
+   /// Published with release semantic after the object was created.
+   static std::atomic< T*>     mpPublished;
 
 }; // Singleton< T>
 
 
 template< class T> std::mutex           Singleton< T>::mMutex;
 template< class T> std::unique_ptr< T>  Singleton< T>::mpObject;
+template< class T> std::atomic< T*>     Singleton< T>::mpPublished{ nullptr};
 
 
 // inlined methods
@@ -107,16 +112,20 @@ template< class T> template< class... Args>
    T& Singleton< T>::instance( Args&&... args)
 {
 
-   if (mpObject.get() == nullptr)
+   T*  object = mpPublished.load( std::memory_order_acquire);
+
+   if (object == nullptr)
    {
       const std::lock_guard< std::mutex>  lg( mMutex);
       if (mpObject.get() == nullptr)
       {
          mpObject.reset( new T( std::forward< Args>( args)...));
       } // end if
+      object = mpObject.get();
+      mpPublished.store( object, std::memory_order_release);
    } // end if
 
-   return *mpObject;
+   return *object;
 } // Singleton< T>::instance
 
 
@@ -124,6 +133,7 @@ template< class T> void Singleton< T>::reset()
 {
 
    const std::lock_guard< std::mutex>  lg( mMutex);
+   mpPublished.store( nullptr, std::memory_order_release);
    mpObject.reset();
    
 } // Singleton< T>::reset
